@@ -9,9 +9,11 @@ package main
 // is transparent, so verdicts there do not depend on this machinery.
 
 import (
+	"fmt"
 	"go/constant"
 	"go/token"
 	"go/types"
+	"os"
 	"sort"
 	"strings"
 
@@ -23,13 +25,15 @@ var curProg *Prog
 type transInfo struct {
 	transparent map[*ssa.Function]bool
 	callers     map[*ssa.Function][]ssa.CallInstruction // static call sites (Call only; not go/defer) in library code
+	delegate    map[string]*ssa.Function                // baseline name -> the new function its body was moved into
+	recvIsParam map[*ssa.Function]bool                  // delegate methods whose receiver is the baseline function's first parameter
 	deepCache   map[*ssa.Function][]ssa.Instruction
 	alias       map[*ssa.Function]string // a baseline function that was re-signed (method <-> function): its baseline name
 	byOldName   map[string]*ssa.Function // baseline name -> the function that carries it now (renamed / re-signed)
 }
 
 func (p *Prog) initTransparency() {
-	ti := &transInfo{byOldName: map[string]*ssa.Function{}, alias: map[*ssa.Function]string{}, transparent: map[*ssa.Function]bool{}, callers: map[*ssa.Function][]ssa.CallInstruction{}, deepCache: map[*ssa.Function][]ssa.Instruction{}}
+	ti := &transInfo{recvIsParam: map[*ssa.Function]bool{}, delegate: map[string]*ssa.Function{}, byOldName: map[string]*ssa.Function{}, alias: map[*ssa.Function]string{}, transparent: map[*ssa.Function]bool{}, callers: map[*ssa.Function][]ssa.CallInstruction{}, deepCache: map[*ssa.Function][]ssa.Instruction{}}
 	p.ti = ti
 	lib := p.LibFuncs()
 	for _, f := range lib {
@@ -99,10 +103,33 @@ func (p *Prog) initTransparency() {
 			}
 		}
 		for f, ns := range claimed {
+			if os.Getenv("RTDEBUG") != "" {
+				fmt.Fprintf(os.Stderr, "alias candidate %s <- %v\n", f, ns)
+			}
 			if len(ns) == 1 {
 				ti.alias[f] = ns[0]
 				ti.byOldName[ns[0]] = f
 			}
+		}
+	}
+	// a baseline function whose whole body moved into a new function or method and which now only delegates to it
+	// (`func TLSClientAuth(o Opts) (*Cfg, error) { return o.clientConfig() }`): the new function IS the anchor
+	for _, f := range lib {
+		if f.Parent() != nil || f.Synthetic != "" || !inventory[short(f.String())] {
+			continue
+		}
+		g := pureDelegate(f)
+		if g == nil || inventory[short(g.String())] {
+			continue
+		}
+		if _, taken := ti.alias[g]; taken {
+			continue
+		}
+		name := short(f.String())
+		ti.alias[g] = name
+		ti.delegate[name] = g
+		if f.Signature.Recv() == nil && g.Signature.Recv() != nil {
+			ti.recvIsParam[g] = true // the baseline's first parameter became the receiver
 		}
 	}
 	cand := map[*ssa.Function]bool{}
@@ -420,14 +447,24 @@ func viPathExists(root *ssa.Function, from, to ssa.Instruction, cutEdge EdgePred
 		}
 		if iff, ok := b.Instrs[len(b.Instrs)-1].(*ssa.If); ok {
 			cond := resolveBoolPhi(iff.Cond, pt.benv)
+			hres, hneg := helperResultOnPath(cond, pt.ret)
 			for i, br := range []bool{true, false} {
 				if k, isK := constBool(cond); isK && k != br {
 					continue
 				}
+				if hres != nil {
+					// the condition is a result of a looked-through helper: on this path it is what the helper returned
+					if k, isK := constBool(hres); isK && k != (br != hneg) {
+						continue
+					}
+					if _, isK := constBool(hres); !isK && applyCut(cutEdge, hres, br != hneg) {
+						continue
+					}
+				}
 				if applyCut(cutEdge, cond, br) {
 					continue
 				}
-				if len(pt.ret) > 0 && infeasibleEdge(cond, br) {
+				if len(pt.ret) > 0 && (infeasibleEdge(cond, br) || nilTestContradictsReturn(cond, br, pt.ret)) {
 					continue // contradicts the value the helper returned on this path
 				}
 				pushFrom(fr, b.Succs[i], b)
@@ -604,14 +641,24 @@ func viPathToSite(root *ssa.Function, s Site, cutEdge EdgePred, cutInstr func(ss
 		}
 		if iff, ok := b.Instrs[len(b.Instrs)-1].(*ssa.If); ok {
 			cond := resolveBoolPhi(iff.Cond, pt.benv)
+			hres, hneg := helperResultOnPath(cond, pt.ret)
 			for i, br := range []bool{true, false} {
 				if k, isK := constBool(cond); isK && k != br {
 					continue
 				}
+				if hres != nil {
+					// the condition is a result of a looked-through helper: on this path it is what the helper returned
+					if k, isK := constBool(hres); isK && k != (br != hneg) {
+						continue
+					}
+					if _, isK := constBool(hres); !isK && applyCut(cutEdge, hres, br != hneg) {
+						continue
+					}
+				}
 				if applyCut(cutEdge, cond, br) {
 					continue
 				}
-				if len(pt.ret) > 0 && infeasibleEdge(cond, br) {
+				if len(pt.ret) > 0 && (infeasibleEdge(cond, br) || nilTestContradictsReturn(cond, br, pt.ret)) {
 					continue // contradicts the value the helper returned on this path
 				}
 				pushFrom(fr, b.Succs[i], b)
@@ -768,4 +815,140 @@ func pathExistsToEdge(f *ssa.Function, from ssa.Instruction, pred, succ *ssa.Bas
 		}
 	}
 	return any
+}
+
+// helperResultOnPath: cond is (a negation of) one result of a multi-result helper call that the path being explored has
+// looked through; it returns the value the helper returned for that result on this path, and whether it is negated.
+func helperResultOnPath(cond ssa.Value, ret map[*ssa.Call]*ssa.Return) (ssa.Value, bool) {
+	if len(ret) == 0 {
+		return nil, false
+	}
+	neg := false
+	x := cond
+	for i := 0; i < 4; i++ {
+		if u, ok := x.(*ssa.UnOp); ok && u.Op == token.NOT {
+			x, neg = u.X, !neg
+			continue
+		}
+		break
+	}
+	if call, isCall := x.(*ssa.Call); isCall {
+		// single-result helper used directly as the condition
+		if r := ret[call]; r != nil && len(r.Results) == 1 {
+			return r.Results[0], neg
+		}
+		return nil, false
+	}
+	ex, ok := x.(*ssa.Extract)
+	if !ok {
+		return nil, false
+	}
+	call, ok := ex.Tuple.(*ssa.Call)
+	if !ok {
+		return nil, false
+	}
+	r := ret[call]
+	if r == nil || ex.Index >= len(r.Results) {
+		return nil, false
+	}
+	return r.Results[ex.Index], neg
+}
+
+// nilTestContradictsReturn: cond tests a looked-through helper's result against nil, and on the path being explored
+// the helper returned the constant nil (or a value that is certainly not nil) for it: the contradicting branch is dead.
+func nilTestContradictsReturn(cond ssa.Value, branch bool, ret map[*ssa.Call]*ssa.Return) bool {
+	c, b := cond, branch
+	for i := 0; i < 4; i++ {
+		if u, ok := c.(*ssa.UnOp); ok && u.Op == token.NOT {
+			c, b = u.X, !b
+			continue
+		}
+		break
+	}
+	bo, ok := c.(*ssa.BinOp)
+	if !ok || (bo.Op != token.EQL && bo.Op != token.NEQ) {
+		return false
+	}
+	var side ssa.Value
+	switch {
+	case isNilConst(bo.Y):
+		side = bo.X
+	case isNilConst(bo.X):
+		side = bo.Y
+	default:
+		return false
+	}
+	rv, neg := helperResultOnPath(side, ret)
+	if rv == nil || neg {
+		return false
+	}
+	holdsNil := b == (bo.Op == token.EQL) // this branch claims side == nil
+	if isNilConst(rv) {
+		return !holdsNil
+	}
+	return false
+}
+
+// pureDelegate: f does nothing but call one library function with its own parameters, in order, and return that
+// call's results, in order. It returns the callee.
+func pureDelegate(f *ssa.Function) *ssa.Function {
+	if len(f.Blocks) != 1 {
+		return nil
+	}
+	var call *ssa.Call
+	var ret *ssa.Return
+	for _, in := range f.Blocks[0].Instrs {
+		switch x := in.(type) {
+		case *ssa.Call:
+			if call != nil {
+				return nil
+			}
+			call = x
+		case *ssa.Return:
+			ret = x
+		case *ssa.Extract, *ssa.Alloc, *ssa.Store, *ssa.UnOp, *ssa.DebugRef, *ssa.MakeInterface, *ssa.ChangeType:
+		default:
+			return nil
+		}
+	}
+	if call == nil || ret == nil {
+		return nil
+	}
+	g := call.Call.StaticCallee()
+	if g == nil || g.Blocks == nil || !isRepoPath(fnPkgPath(g)) || g == f {
+		return nil
+	}
+	if len(call.Call.Args) != len(f.Params) {
+		return nil
+	}
+	for i, a := range call.Call.Args {
+		ok := a == ssa.Value(f.Params[i])
+		if !ok {
+			// a parameter spilled to a local (address taken for a pointer receiver) and loaded back / passed by address
+			x := a
+			if ld, isLd := x.(*ssa.UnOp); isLd && ld.Op == token.MUL {
+				x = ld.X
+			}
+			if al, isAl := x.(*ssa.Alloc); isAl {
+				for _, in := range f.Blocks[0].Instrs {
+					if st, isSt := in.(*ssa.Store); isSt && st.Addr == ssa.Value(al) && st.Val == ssa.Value(f.Params[i]) {
+						ok = true
+					}
+				}
+			}
+		}
+		if !ok {
+			return nil
+		}
+	}
+	for i, r := range ret.Results {
+		if len(ret.Results) == 1 && r == ssa.Value(call) {
+			continue
+		}
+		ex, ok := r.(*ssa.Extract)
+		if !ok || ex.Tuple != ssa.Value(call) || ex.Index != i {
+			return nil
+		}
+	}
+	return g
 }
